@@ -34,6 +34,24 @@ KINDS = ['CapabilityCommand', 'LogoutCommand', 'NoOpCommand', 'IdCommand', 'Appe
 KIND_INDEX = {k: i for i, k in enumerate(KINDS)}
 
 
+# Coq evaluation of prepared cases runs in background threads while the next
+# section drives the server (the implementation side is single-threaded).
+_pending: list = []
+
+
+def later(fn) -> None:
+    import threading
+    t = threading.Thread(target=fn, daemon=True)
+    t.start()
+    _pending.append(t)
+
+
+def join_all() -> None:
+    for t in _pending:
+        t.join()
+    _pending.clear()
+
+
 # ----------------------------------------------------------------- implementation side
 _commands = None
 
@@ -120,14 +138,14 @@ def section_utf7(ctx) -> None:
     import itertools
     rng = ctx.rng
     cases = []
-    for n in range(0, 5):
+    for n in range(0, 4 if ctx.quick else 6):
         for t in itertools.product(b'&-A,+!\xff', repeat=n):
             cases.append(bytes(t))
     alph = b'&-,AOkaZ09+/!x\xff~\\'
-    for _ in range(ctx.scale(1500, 20000)):
+    for _ in range(ctx.scale(900, 20000)):
         cases.append(bytes(rng.choice(alph) for _ in range(rng.randint(0, 12))))
     b64 = b'ABCDEFGHIJKLMNOPQRSTUVWXYZabcdefghijklmnopqrstuvwxyz0123456789+,'
-    for _ in range(ctx.scale(500, 5000)):
+    for _ in range(ctx.scale(400, 5000)):
         cases.append(b'&' + bytes(rng.choice(b64) for _ in range(rng.randint(0, 12)))
                      + rng.choice([b'-', b'', b'-x', b'!', b'-&', b'&']))
     terms, keep = [], []
@@ -149,8 +167,10 @@ def section_utf7(ctx) -> None:
         ctx.count(('utf7', c), nontrivial=b'&' in c)
         terms.append(T.pair(T.bytes_(c), T.boolean(ok)))
         keep.append(c)
-    for i in ctx.run_cases('modutf7_ok', HEADER, 'bytes * bool', terms, 'chk_utf7')[:5]:
-        ctx.disagreement('modutf7_ok', {'input': keep[i].hex()})
+    def evaluate():
+        for i in ctx.run_cases('modutf7_ok', HEADER, 'bytes * bool', terms, 'chk_utf7', shard=1500)[:5]:
+            ctx.disagreement('modutf7_ok', {'input': keep[i].hex()})
+    later(evaluate)
 
 
 def gen_parse_inputs(ctx, n_grammar: int, n_mut: int, n_raw: int) -> list[tuple[str, bytes]]:
@@ -176,22 +196,42 @@ SWEEP_BASES = [b'a NOOP\r\n', b'a UID FETCH 1:* (FLAGS BODY[1.TEXT]<0.5>)\r\n',
 
 
 def sweep_lines(quick: bool) -> list[bytes]:
+    """Every byte value at every position of a few base lines (thorough);
+    the quick tier takes every position of two lines with the bytes the
+    grammar distinguishes plus a stride through the rest."""
     out = []
-    bases = SWEEP_BASES[:4] if quick else SWEEP_BASES
-    values = list(range(256))
+    bases = SWEEP_BASES[1:2] if quick else SWEEP_BASES
+    special = [0x00, 0x0a, 0x0d, 0x20, 0x22, 0x28, 0x29, 0x2a, 0x2c, 0x2e, 0x30, 0x3a, 0x3c, 0x41, 0x5b, 0x5d,
+               0x7b, 0x80]
+    values = list(range(256)) if not quick else special
     for base in bases:
         for k in range(len(base)):
-            for c in (values if not quick else values[::3] + [0x20, 0x22, 0x28, 0x29, 0x5b, 0x5d, 0x7b, 0x7d]):
-                if c == base[k]:
-                    continue
-                out.append(base[:k] + bytes([c]) + base[k + 1:])
+            for c in values:
+                if c != base[k]:
+                    out.append(base[:k] + bytes([c]) + base[k + 1:])
             out.append(base[:k] + base[k + 1:])
     return out
 
 
+# every byte value at one position of a short line, one line per lexical
+# context of the grammar (a changed character class shows up here)
+CLASS_SWEEPS = [
+    (b'', b' NOOP\r\n'), (b'a', b' NOOP\r\n'), (b'a AUTHENTICATE p', b'\r\n'), (b'a LOGIN u', b' p\r\n'),
+    (b'a LIST "" b', b'\r\n'), (b'a STORE 1 FLAGS f', b'\r\n'), (b'a FETCH 1 UID', b'\r\n'),
+    (b'a SELECT x (o', b')\r\n'), (b'a SEARCH EMAILID M', b'\r\n'), (b'a SEARCH ', b'\r\n'),
+    (b'a FETCH ', b' FLAGS\r\n'), (b'a LOGIN "', b'" p\r\n'), (b'a LOGIN "\\', b'" p\r\n'),
+    (b'a LOGIN {1', b'}\r\n'), (b'a NOOP', b'\n'), (b'a SELECT &', b'-\r\n'), (b'a SELECT &A', b'\r\n'),
+    (b'a FETCH 1 BODY[', b']\r\n'), (b'a STATUS x (MESSAGES', b')\r\n'), (b'a UID', b'FETCH 1 UID\r\n'),
+]
+
+
+def class_sweeps() -> list[bytes]:
+    return [pre + bytes([c]) + post for pre, post in CLASS_SWEEPS for c in range(256)]
+
+
 def section_parse(ctx) -> None:
     """Model vs Commands.parse, every prefix of the continuation exchange."""
-    inputs = gen_parse_inputs(ctx, ctx.scale(2500, 40000), ctx.scale(2500, 40000), ctx.scale(600, 8000))
+    inputs = gen_parse_inputs(ctx, ctx.scale(600, 6000), ctx.scale(600, 6000), ctx.scale(100, 1000))
     inputs += [('sweep', ln) for ln in sweep_lines(ctx.quick)]
     g = Gen(ctx.rng)
     inputs += [('deep', ln) for ln in g.deep_lines(3000)] + [('deep', ln) for ln in g.deep_lines(30)]
@@ -225,13 +265,39 @@ def section_parse(ctx) -> None:
                 break
     ctx.extra['parse_outcomes'] = {f'{a}/{b}': n for (a, b), n in sorted(hist.items())}
     ctx.sample({'parse_case': [keep[-1][0].decode('latin-1'), repr(keep[-1][2])]})
-    bad = ctx.run_cases('parse_command', HEADER, 'parse_case', terms, 'chk_parse', shard=400)
-    for i in bad[:8]:
-        line, conts, e = keep[i]
-        model = coq_parse(ctx, line, conts)
-        ctx.disagreement('parse_command', {'line': line.hex(), 'conts': [c.hex() for c in conts],
-                                           'line_text': line[:200].decode('latin-1'),
-                                           'impl': repr(e), 'model': model})
+    # lexical class sweeps: one compact case per context
+    sweep_terms, sweep_keep = [], []
+    for pre, post in CLASS_SWEEPS:
+        outs = []
+        for c in range(256):
+            line = pre + bytes([c]) + post
+            e = impl_parse(line, [], None)
+            ctx.count(('class', line), nontrivial=e[0] == 'cmd')
+            if e[0] == 'exc':
+                ctx.failure('no_hang' if e[1] == 'Hang' else 'no_internal_error',
+                            f'Commands.parse: {e[1]} escapes on {line!r}',
+                            {'kind': 'parse', 'line': line.hex(), 'conts': []}, {'kind': 'parse_escape', 'exc': e[1]})
+            outs.append(e)
+        sweep_terms.append(T.pair(T.bytes_(pre), T.bytes_(post), T.lst(enc_eout(e) for e in outs)))
+        sweep_keep.append((pre, post, outs))
+
+    def evaluate():
+        for i in ctx.run_cases('class_sweep', HEADER, 'bytes * bytes * list eout', sweep_terms, 'chk_sweep', shard=4):
+            pre, post, outs = sweep_keep[i]
+            # find the byte values: evaluate the 256 lines one by one
+            singles = [enc_parse_case(pre + bytes([c]) + post, [], outs[c], None) for c in range(256)]
+            for c in ctx.run_cases('class_sweep_detail', HEADER, 'parse_case', singles, 'chk_parse', shard=256)[:4]:
+                line = pre + bytes([c]) + post
+                ctx.disagreement('class_sweep', {'line': line.hex(), 'line_text': line.decode('latin-1'),
+                                                 'impl': repr(outs[c]), 'model': coq_parse(ctx, line, [])})
+        bad = ctx.run_cases('parse_command', HEADER, 'parse_case', terms, 'chk_parse', shard=400)
+        for i in bad[:8]:
+            line, conts, e = keep[i]
+            model = coq_parse(ctx, line, conts)
+            ctx.disagreement('parse_command', {'line': line.hex(), 'conts': [c.hex() for c in conts],
+                                               'line_text': line[:200].decode('latin-1'),
+                                               'impl': repr(e), 'model': model})
+    later(evaluate)
 
 
 def coq_parse(ctx, line: bytes, conts: list[bytes]) -> str:
@@ -243,18 +309,427 @@ def coq_parse(ctx, line: bytes, conts: list[bytes]) -> str:
     return out[-400:]
 
 
-SECTIONS = [section_utf7, section_parse]
+
+# ------------------------------------------------------------------ server level
+STATE_CODE = {'na': 0, 'auth': 1, 'sel': 2}
+NA_CMDS = [b'CAPABILITY', b'NOOP', b'ID', b'LOGIN', b'AUTHENTICATE', b'STARTTLS', b'LOGOUT']
+AUTH_CMDS = [b'CAPABILITY', b'NOOP', b'ID', b'APPEND', b'CREATE', b'DELETE', b'EXAMINE', b'LIST', b'LSUB',
+             b'RENAME', b'SELECT', b'STATUS', b'SUBSCRIBE', b'UNSUBSCRIBE', b'LOGOUT']
+SEL_CMDS = AUTH_CMDS + [b'CHECK', b'CLOSE', b'EXPUNGE', b'COPY', b'MOVE', b'FETCH', b'STORE', b'SEARCH',
+                        b'UID COPY', b'UID MOVE', b'UID EXPUNGE', b'UID FETCH', b'UID SEARCH', b'UID STORE',
+                        b'IDLE', b'FETCH', b'SEARCH', b'STORE', b'UID FETCH', b'UID SEARCH']
+STATE_CMDS = {'na': NA_CMDS, 'auth': AUTH_CMDS, 'sel': SEL_CMDS}
+FOLLOW_UP = [b'DONE\r\n', b'done\r\n', b'*\r\n', b'AHRlc3R1c2VyAHRlc3RwYXNz\r\n', b'dGVzdHVzZXI=\r\n',
+             b'dGVzdHBhc3M=\r\n', b'!!!\r\n', b'AP8AeA==\r\n', b'/w==\r\n', b'\r\n', b'junk\r\n',
+             b'DONE {3+}\r\nabc\r\n']
+
+
+def pick_case(g: Gen, rng, stream: str) -> tuple[str, bytes]:
+    state = rng.choice(D.STATES)
+    if stream == 'raw':
+        return state, g.raw_line()
+    # mostly commands that make sense in the state, sometimes any command
+    name = rng.choice(STATE_CMDS[state]) if rng.random() < 0.8 else rng.choice(COMMAND_NAMES)
+    data = g.grammar_line(name)
+    if name in (b'IDLE', b'AUTHENTICATE'):
+        for _ in range(rng.choice([0, 1, 2, 3])):
+            data += rng.choice(FOLLOW_UP)
+    if stream == 'mutated':
+        data = g.mutate(data, rng.choice([1, 1, 2]))
+    return state, data
+
+
+TAG_PREFIX_OK = __import__('re').compile(rb' *(\S+)')
+
+
+def monitor(ctx, where: str, state: str, data: bytes, o: D.Outcome, known_kind: str | None = None) -> bool:
+    """The property statement on one exchange; True when it holds."""
+    replay = {'kind': where, 'state': state, 'data': data.hex(), 'data_text': data[:300].decode('latin-1')}
+    obs_base = {'exc': o.exc, 'site': o.site}
+    ok = True
+
+    def fail(clause, what, kind):
+        nonlocal ok
+        ok = False
+        ctx.failure(clause, f'{what}: {state} {data[:160]!r} -> {o.out[-160:]!r}'
+                    + (f' [{o.exc} at {o.site}]' if o.exc else ''),
+                    dict(replay, outcome=o.as_dict()), dict(obs_base, kind=kind))
+
+    if o.hang:
+        fail('no_hang', 'the server does not come back within the step budget', 'hang')
+        return ok
+    if o.other_ok is False:
+        fail('others_served', "a second connection's NOOP is not answered", 'others_blocked')
+    if o.serverbug:
+        fail('no_internal_error', 'answered with BYE [SERVERBUG]', known_kind or 'serverbug')
+    elif o.exc is not None:
+        fail('no_internal_error', 'an exception escaped the connection task', known_kind or 'escaped_exception')
+    if o.closed and not o.bye and o.exc is None and not o.truncated:
+        fail('bye_before_close', 'the connection was closed without BYE', 'close_without_bye')
+    if o.truncated or o.serverbug or o.exc is not None:
+        return ok
+    if o.tagged is not None:
+        tag = o.tagged[0]
+        m = TAG_PREFIX_OK.match(data)
+        first = m.group(1) if m else b''
+        if not (tag == b'*' or (tag and first.startswith(tag))):
+            fail('tagged_completion', f'the completion carries the tag {tag!r}, not the line\'s', 'wrong_tag')
+    elif o.closed and o.bye:
+        pass
+    elif o.pending and o.conts > 0 and not o.last_silent:
+        pass        # waiting for the continuation data it asked for
+    elif o.pending and o.conts > 0 and o.unsent == 0 and o.units and D.sync_literal_length(o.units[-1]) is None \
+            and len(o.units) > 1 and o.last_silent:
+        # the follow-up line of AUTHENTICATE / IDLE was consumed as data of a literal etc.
+        fail('tagged_completion', 'complete input, the server stays silent', 'silent')
+    elif o.pending:
+        fail('tagged_completion', 'complete input, no tagged completion, no continuation request, no BYE', 'silent')
+    return ok
+
+
+def enc_server_case(state: str, units: list[bytes], o: D.Outcome) -> str:
+    line, sup = units[0], units[1:]
+    table = O.build_table(units)
+    cond = {b'OK': 0, b'NO': 1, b'BAD': 2}
+    tagged = 'None' if o.tagged is None else f'(Some {T.pair(T.bytes_(o.tagged[0]), T.N(cond[o.tagged[1]]))})'
+    obs = T.pair(T.nat(min(o.conts, 4000)), tagged, T.boolean(o.closed), T.boolean(o.bye))
+    return T.pair(O.enc_table(table), enc_optN(MAX_APPEND), T.N(STATE_CODE[state]), T.nat(0),
+                  T.bytes_(line), T.lst(T.bytes_(c) for c in sup), obs)
+
+
+async def run_server_stream(ctx, cases: list[tuple[str, str, bytes]], terms, keep, hist) -> None:
+    pool = D.Pool()
+    for i, (stream, state, data) in enumerate(cases):
+        if 60 < nesting_depth(data) < 2500:
+            continue
+        conn = await pool.get(state)
+        o = await D.feed(conn, data, pool.other, probe_other=(i % 7 == 0))
+        hist[(stream, state, (o.tagged[1].decode() if o.tagged else 'closed' if o.closed else 'pending'))] += 1
+        ctx.count(('server', state, data), nontrivial=bool(o.tagged and o.tagged[1] != b'BAD') or o.conts > 0)
+        good = monitor(ctx, 'line', state, data, o)
+        if good and o.units and not o.truncated and not o.hang:
+            terms.append(enc_server_case(state, o.units, o))
+            keep.append((state, data, o))
+        if not D.keeps_state(data, o):
+            pool.drop(state)
+
+
+async def bad_limit_monitor(ctx) -> None:
+    """Consecutive BADs: the 5th is answered with BYE and the connection closes."""
+    from ..pymap_env import DictEnv
+    env = await DictEnv().start()
+    for state in D.STATES:
+        conn = D.keep(await (env.connect() if state == 'na' else env.login()))
+        if state == 'sel':
+            await conn.send(b's SELECT INBOX\r\n')
+        for k in range(1, 7):
+            data = b'b%d BOGUS\r\n' % k
+            o = await D.feed(conn, data)
+            monitor(ctx, 'bad_limit', state, data, o)
+            want_close = k >= 5
+            ctx.count(('bad_limit', state, k))
+            if k <= 5 and (o.closed != want_close or o.bye != want_close or o.tagged is None
+                           or o.tagged[1] != b'BAD'):
+                ctx.failure('bye_before_close', f'bad-command limit: reply {k} in state {state}: {o.out!r} closed={o.closed}',
+                            {'kind': 'bad_limit', 'state': state, 'k': k}, {'kind': 'bad_limit'})
+            if o.closed:
+                break
+
+
+def section_server(ctx) -> None:
+    rng = ctx.rng
+    g = Gen(rng)
+    cases: list[tuple[str, str, bytes]] = []
+    n = ctx.scale(800, 8000)
+    for stream, share in (('grammar', 0.5), ('mutated', 0.4), ('raw', 0.1)):
+        for _ in range(int(n * share)):
+            state, data = pick_case(g, rng, stream)
+            cases.append((stream, state, data))
+    for ln in g.deep_lines(3000):
+        cases.append(('deep', 'sel', ln))
+    # literal data that ends like a literal+ marker (readline must not glue it)
+    for payload in (b'x{9+}', b'{3+}', b'abc {5+}', b'{1+}\r\n{2+}'):
+        cases.append(('glue', 'auth', b'g1 APPEND INBOX {%d+}\r\n' % len(payload) + payload + b'\r\n'))
+        cases.append(('glue', 'na', b'g2 LOGIN {%d+}\r\n' % len(payload) + payload + b' {1+}\r\nx\r\n'))
+        cases.append(('glue', 'sel', b'g3 SEARCH SUBJECT {%d}\r\n' % len(payload) + payload + b'\r\n'))
+    # byte sweep of a few base lines against the live server
+    for base, state in ((b'a LOGIN testuser testpass\r\n', 'na'), (b'a FETCH 1 BODY[1]<0.5>\r\n', 'sel'),
+                        (b'a SELECT &AOk-\r\n', 'auth')):
+        vals = range(256) if not ctx.quick else [0x00, 0x0d, 0x20, 0x22, 0x26, 0x28, 0x5b, 0x7b, 0xff]
+        for k in range(len(base)):
+            for c in vals:
+                if c != base[k]:
+                    cases.append(('sweep', state, base[:k] + bytes([c]) + base[k + 1:]))
+    terms, keep = [], []
+    hist = collections.Counter()
+    t0 = time.time()
+    D.run_all(run_server_stream(ctx, cases, terms, keep, hist))
+    D.run_all(bad_limit_monitor(ctx), timeout=300)
+    ctx.extra['server_outcomes'] = {'/'.join(k): v for k, v in sorted(hist.items())}
+    ctx.extra['server_wall_s'] = round(time.time() - t0, 1)
+    if keep:
+        ctx.sample({'server_case': [keep[-1][0], keep[-1][1][:120].decode('latin-1'), keep[-1][2].cls().__repr__()]})
+    # every continuation request is justified by a synchronizing literal of the data sent
+    for state, data, o in keep:
+        if o.tagged is not None and o.tagged[1] == b'BAD':
+            syncs = sum(1 for u in o.units if D.sync_literal_length(u) is not None)
+            lit_conts = sum(1 for t in o.cont_texts if t == b'Literal string')
+            if lit_conts > syncs:
+                ctx.failure('continuation_justified',
+                            f'{lit_conts} literal continuation requests for {syncs} synchronizing literals: {data[:120]!r}',
+                            {'kind': 'line', 'state': state, 'data': data.hex()}, {'kind': 'extra_continuation'})
+    def evaluate():
+        bad = ctx.run_cases('server_response', HEADER, 'server_case', terms, 'chk_server', shard=400)
+        for i in bad[:8]:
+            state, data, o = keep[i]
+            ctx.disagreement('server_response', {'state': state, 'data': data.hex(),
+                                                 'data_text': data[:200].decode('latin-1'),
+                                                 'impl': o.as_dict(),
+                                                 'model': coq_predict(ctx, state, o.units)})
+    later(evaluate)
+
+
+def coq_predict(ctx, state: str, units: list[bytes]) -> str:
+    from .. import coqrun
+    table = O.build_table(units)
+    term = (f'predict {O.enc_table(table)} {enc_optN(MAX_APPEND)} (state_of {T.N(STATE_CODE[state])}) 0 '
+            f'{T.bytes_(units[0])} {T.lst(T.bytes_(c) for c in units[1:])}')
+    return coqrun.eval_term(ctx.prop, 'diag', HEADER, term)[-400:]
+
+
+# ---------------------------------------------------------------- stored content
+FETCH_ATTS = [b'ENVELOPE', b'FLAGS', b'INTERNALDATE', b'UID', b'RFC822.SIZE', b'BODYSTRUCTURE', b'BODY',
+              b'EMAILID', b'THREADID', b'RFC822', b'RFC822.HEADER', b'RFC822.TEXT',
+              b'BODY[]', b'BODY[HEADER]', b'BODY[TEXT]', b'BODY[1]', b'BODY[1.MIME]', b'BODY[1.1]', b'BODY[2]',
+              b'BODY[1.HEADER]', b'BODY[1.TEXT]', b'BODY[HEADER.FIELDS (Subject Date)]',
+              b'BODY[HEADER.FIELDS.NOT (Subject)]', b'BODY.PEEK[]<0.10>', b'BODY[]<5.1000>',
+              b'BODY[]<100000.1>', b'BODY[1.2.3.4]', b'BODY[1.HEADER.FIELDS (a)]',
+              b'BINARY[]', b'BINARY[1]', b'BINARY.PEEK[1]<0.5>', b'BINARY.SIZE[]', b'BINARY.SIZE[1]']
+SEARCH_KEYS = ([b'ALL', b'ANSWERED', b'DELETED', b'FLAGGED', b'NEW', b'OLD', b'RECENT', b'SEEN', b'UNANSWERED',
+                b'UNDELETED', b'UNFLAGGED', b'UNSEEN', b'DRAFT', b'UNDRAFT']
+               + [k + b' x' for k in (b'BCC', b'BODY', b'CC', b'FROM', b'SUBJECT', b'TEXT', b'TO')]
+               + [k + b' 1-Jan-2020' for k in (b'BEFORE', b'ON', b'SINCE', b'SENTBEFORE', b'SENTON', b'SENTSINCE')]
+               + [b'HEADER Subject x', b'HEADER Date ""', b'HEADER X ""', b'LARGER 5', b'SMALLER 5', b'KEYWORD kw',
+                  b'UNKEYWORD kw', b'UID 1:*', b'1:*', b'NOT ALL', b'OR ALL SEEN', b'(ALL SEEN)', b'EMAILID M1',
+                  b'THREADID T1', b'CHARSET utf-8 SUBJECT \xc3\xa9', b'TEXT ""', b'BODY ""', b'SUBJECT ""',
+                  b'FROM "<"', b'SENTON 1-Jan-0001', b'SENTBEFORE 31-Dec-9999'])
+
+
+def stored_kind(att: bytes, o: D.Outcome) -> str | None:
+    """Class of a known stored-content failure (matched against known_findings)."""
+    if att.startswith(b'BINARY') and o.site.startswith('mime/cte.py'):
+        return 'binary_cte'
+    return None
+
+
+async def run_stored(ctx, messages: list[bytes], hist) -> None:
+    from ..pymap_env import DictEnv
+    for m in messages:
+        env = await DictEnv().start()
+        conn = D.keep(await env.login())
+        other = D.keep(await env.login())
+        data = b'a APPEND INBOX {%d+}\r\n' % len(m) + m + b'\r\n'
+        o = await D.feed(conn, data, other, probe_other=True)
+        ctx.count(('stored-append', m))
+        hist['append ' + (o.tagged[1].decode() if o.tagged else 'none')] += 1
+        if not monitor(ctx, 'stored_append', 'auth', data, o) or o.tagged is None or o.tagged[1] != b'OK':
+            continue
+        # a message nested in a message/rfc822 part goes through the same code
+        for atts, mk in ((FETCH_ATTS, lambda a: b'f FETCH * (' + a + b')\r\n'),
+                         (SEARCH_KEYS, lambda a: b'f SEARCH ' + a + b'\r\n')):
+            for a in atts:
+                if conn.closed:
+                    conn = D.keep(await env.login())
+                r = await conn.send(b's SELECT INBOX\r\n')
+                if b's OK' not in r:
+                    break
+                line = mk(a)
+                o = await D.feed(conn, line, other)
+                ctx.count(('stored', m, a))
+                hist[('fetch ' if atts is FETCH_ATTS else 'search ') + (o.tagged[1].decode() if o.tagged else 'none')] += 1
+                monitor(ctx, 'stored', 'sel', line, o, known_kind=stored_kind(a, o))
+                ctx.extra.setdefault('stored_replay_note', 'replay: APPEND the message then the command')
+                if not o.tagged:
+                    ctx.extra.setdefault('stored_failures', []).append(
+                        {'message': m[:120].decode('latin-1'), 'command': line.decode('latin-1'), 'exc': o.exc, 'site': o.site})
+
+
+def section_stored(ctx) -> None:
+    g = Gen(ctx.rng)
+    msgs = list(ADVERSARIAL_MESSAGES)
+    # the same content nested as message/rfc822 and as a multipart part
+    for m in ADVERSARIAL_MESSAGES[::4]:
+        msgs.append(b'Content-Type: message/rfc822\r\n\r\n' + m)
+        msgs.append(b'Content-Type: multipart/mixed; boundary=q\r\n\r\n--q\r\n' + m + b'\r\n--q--\r\n')
+    for _ in range(ctx.scale(10, 300)):
+        msgs.append(g.message())
+    if ctx.quick:
+        msgs = msgs[::3] + msgs[1::7]
+    hist = collections.Counter()
+    D.run_all(run_stored(ctx, msgs, hist))
+    ctx.extra['stored_outcomes'] = dict(hist)
+    ctx.extra['stored_messages'] = len(msgs)
+
+
+# ------------------------------------------------------------------------ sieve
+SKINDS = ['NoOpCommand', 'CapabilityCommand', 'StartTLSCommand', 'AuthenticateCommand',
+          'UnauthenticateCommand', 'LogoutCommand', 'HaveSpaceCommand', 'PutScriptCommand',
+          'ListScriptsCommand', 'SetActiveCommand', 'GetScriptCommand', 'DeleteScriptCommand',
+          'RenameScriptCommand', 'CheckScriptCommand']
+
+
+def impl_sieve_parse(line: bytes):
+    from pymap.parsing import Params
+    from pymap.parsing.exceptions import NotParseable
+    from pymap.sieve.manage.command import Command
+    try:
+        with D.Watch():
+            cmd, _ = Command.parse(memoryview(line), Params(allow_continuations=False))
+    except NotParseable:
+        return None
+    except (ValueError, RecursionError):
+        return None          # answered "Bad command" by ManageSieveConnection.run since the fix
+    return SKINDS.index(type(cmd).__name__)
+
+
+async def run_sieve(ctx, lines: list[bytes], hist) -> None:
+    from ..pymap_env import DictEnv
+    env = await DictEnv().start()
+    for authed in (False, True):
+        conn = None
+        for data in lines:
+            if conn is None or conn.closed:
+                conn = D.keep(await env.connect(sieve=True))
+                if authed:
+                    r = await conn.send(b'AUTHENTICATE "PLAIN" "AHRlc3R1c2VyAHRlc3RwYXNz"\r\n')
+                    assert r.startswith(b'OK'), r
+            other = D.keep(await env.login())
+            end = D.next_chunk(data, 0, 0)
+            if end is None:
+                continue
+            before = len(conn.all_out)
+            try:
+                with D.Watch():
+                    out = await conn.send(data[:end])
+                hang = False
+            except D.Hang:
+                out, hang = b'', True
+            for _ in range(3):
+                await asyncio.sleep(0)
+            ctx.count(('sieve', authed, data))
+            exc = type(conn.exc).__name__ if conn.exc else None
+            last = D.split_responses(out)[-1:] or [b'']
+            answered = last[0].startswith((b'OK', b'NO', b'BYE')) or (out != b'' and not conn.closed and b'AUTHENTICATE' in data.upper())
+            hist[('auth ' if authed else 'anon ') + (last[0][:3].decode('latin-1') or 'none')] += 1
+            replay = {'kind': 'sieve', 'authed': authed, 'data': data.hex()}
+            if hang or isinstance(conn.exc, D.Hang):
+                ctx.failure('no_hang', f'ManageSieve: no return within the step budget on {data[:100]!r}', replay, {'kind': 'hang'})
+            elif exc:
+                ctx.failure('no_internal_error', f'ManageSieve: {exc} escaped on {data[:100]!r}', replay,
+                            {'kind': 'sieve_escape', 'exc': exc})
+            elif not answered:
+                ctx.failure('tagged_completion', f'ManageSieve: {data[:100]!r} -> {out[-100:]!r} closed={conn.closed}',
+                            replay, {'kind': 'sieve_unanswered'})
+            elif conn.closed and not last[0].startswith(b'BYE'):
+                ctx.failure('bye_before_close', f'ManageSieve: closed without BYE after {data[:100]!r}', replay,
+                            {'kind': 'sieve_close_without_bye'})
+            if not await D.probe(other):
+                ctx.failure('others_served', f'IMAP connection not served after ManageSieve {data[:100]!r}', replay,
+                            {'kind': 'others_blocked'})
+            if b'AUTHENTICATE' in data.upper() or b'STARTTLS' in data.upper() or b'UNAUTH' in data.upper():
+                conn = None
+
+
+def section_sieve(ctx) -> None:
+    rng = ctx.rng
+    g = Gen(rng)
+    lines = list(SIEVE_LINES)
+    for _ in range(ctx.scale(100, 1500)):
+        lines.append(g.mutate(rng.choice(SIEVE_LINES), rng.choice([1, 1, 2])))
+    lines = [ln for ln in lines if D.next_chunk(ln, 0, 0) is not None]
+    # parser correspondence
+    terms, keep = [], []
+    for ln in lines:
+        end = D.next_chunk(ln, 0, 0)
+        line = ln[:end]
+        e = impl_sieve_parse(line)
+        _small, vals = O.token_values([line])
+        bad_utf8 = []
+        for v in vals:
+            try:
+                v.decode('utf-8')
+            except UnicodeError:
+                bad_utf8.append(v)
+        terms.append(T.pair(T.lst(T.bytes_(v) for v in sorted(bad_utf8)), T.bytes_(line),
+                            'None' if e is None else f'(Some {T.N(e)})'))
+        keep.append((line, e))
+        ctx.count(('sieve-parse', line), nontrivial=e is not None)
+    def evaluate():
+        for i in ctx.run_cases('sieve_parse', HEADER, 'list bytes * bytes * option N', terms, 'chk_sieve', shard=400)[:5]:
+            ctx.disagreement('sieve_parse', {'line': keep[i][0].hex(), 'line_text': keep[i][0][:200].decode('latin-1'),
+                                             'impl': keep[i][1]})
+    later(evaluate)
+    hist = collections.Counter()
+    D.run_all(run_sieve(ctx, lines if not ctx.quick else lines[:120], hist))
+    ctx.extra['sieve_outcomes'] = dict(hist)
+
+
+SECTIONS = [section_utf7, section_parse, section_server, section_stored, section_sieve]
 
 
 def run(ctx) -> None:
+    import logging
+    logging.disable(logging.CRITICAL)       # pymap logs the exceptions it answers
     D.install_watchdog()
-    ctx.rule = ('inputs are drawn from one PRNG (seed): grammar-derived command lines for every '
-                'built-in command with valid and invalid arguments, mutated lines, raw lines, byte sweeps')
+    ctx.rule = ('inputs are drawn from one PRNG (seed): grammar-derived command lines for every built-in '
+                'command with valid and invalid arguments (80% chosen among the commands meaningful in the '
+                'connection state), mutated lines (1-3 byte/token edits), raw lines, byte sweeps of base lines, '
+                'deep nestings; adversarial stored messages x every FETCH attribute and SEARCH key; ManageSieve '
+                'lines; non-trivial = parsed to a command / answered OK or NO / continuation requested')
+    ctx.assumptions += [
+        'CPython (re, int, codecs, datetime.strptime, email) is the semantics of the implementation side and the '
+        'source of the oracle answers given to the model (strptime, codec lookup and decode)',
+        'the recursion limit is modelled as a depth budget; inputs nested between 60 and 2500 levels are not generated',
+        'command bodies are abstracted by their outcome class (exec_ok); that no body raises outside the contract '
+        'is checked by the monitors only (dict backend)',
+        'super-linear CPU time of the regex engine cannot be exhibited by the model; it is bounded only by the '
+        f'watchdog ({D.CPU_BUDGET} s CPU per step)',
+    ]
     ctx.check_proofs(['Cmd/Check'])
+    import os
+    only = os.environ.get('C06_SECTIONS')      # development aid: run a subset
     for sec in SECTIONS:
+        if only and sec.__name__.replace('section_', '') not in only.split(','):
+            continue
+        t0 = time.time()
         sec(ctx)
+        ctx.extra.setdefault('section_wall_s', {})[sec.__name__] = round(time.time() - t0, 1)
+    t0 = time.time()
+    join_all()
+    ctx.extra['section_wall_s']['coq_evaluation_tail'] = round(time.time() - t0, 1)
 
 
 def replay(ctx, obj) -> int:
-    print(obj)
+    D.install_watchdog()
+    from ..pymap_env import run, DictEnv
+
+    async def go():
+        env = await DictEnv().start()
+        state = obj.get('state', 'auth')
+        if obj.get('kind') == 'sieve':
+            conn = await env.connect(sieve=True)
+        elif state == 'na':
+            conn = await env.connect()
+        else:
+            conn = await env.login()
+            if state == 'sel':
+                await conn.send(b's SELECT INBOX\r\n')
+        data = bytes.fromhex(obj.get('data', ''))
+        o = await D.feed(conn, data)
+        print(state, data)
+        print(o.as_dict())
+    if 'data' in obj:
+        run(go())
+    else:
+        print(obj)
     return 0
